@@ -138,8 +138,8 @@ SPECS = {
 
  "C04": {
   "level": "exploration",
-  "passes": [fsm("^TestC04$")],
-  "rule": "one case = one world with 1-3 consecutive sessions (inbound or outbound, hold time 3 s so keepalives interleave every second), each session starting 1-16 writer goroutines plus a short-body writer from inside OnEstablished, "
+  "passes": [fsm("^TestC04$"), real("^TestRealBackpressure$")],
+  "rule": "[also pass realtcp: real kernel back-pressure: 4 KiB send/receive buffers, the remote stops reading for 2.5 s while 4 writers and the keepalive timer (hold 3 s) write, then resumes; strict parse + exactly-once join] one case = one world with 1-3 consecutive sessions (inbound or outbound, hold time 3 s so keepalives interleave every second), each session starting 1-16 writer goroutines plus a short-body writer from inside OnEstablished, "
           "one WriteUpdate from inside OnEstablished and one per received UPDATE from inside the handler; bodies 0..4077 bytes carrying (epoch, writer, seq); sessions end by remote close / RST / Cease / silence (hold-timer expiry) mid-burst while the writers of ended "
           "sessions keep calling; finally Close with writers active; seeded virtual delays at the WriteUpdate/teardown schedule points. Oracle (offline join of call log and strict wire log): nil-returning call appears exactly once with equal body on the connection "
           "of its own session, failed call at most once, per-writer order preserved, no id on a later connection, calls begun after OnClose fail, WriteUpdate inside OnClose fails, every byte is a well-formed message, no deadlock (virtual watchdog). "
@@ -162,9 +162,9 @@ SPECS = {
  "C07": {
   "level": "exploration",
   "passes": [fsm("^TestC07$"), real("^TestRealCollision$")],
-  "rule": "[also pass realtcp: ordered collisions on real sockets, both dominance configurations x both orders] grid: 6 dominance configurations (local id <, >, = remote id x local AS <, > remote AS) x modes {ordered (quiescence barrier between the two OPENs), simul (both OPENs at one virtual instant), estfirst (one connection Established while the other is in OpenSent), "
+  "rule": "[also pass realtcp: ordered collisions on real sockets, both dominance configurations x both orders] grid: 10 dominance configurations (local id <, >, = remote id, and identifiers more than 2^31 apart in both directions, x local AS <, > remote AS) x modes {ordered (quiescence barrier between the two OPENs), simul (both OPENs at one virtual instant), estfirst (one connection Established while the other is in OpenSent), "
           "race-est / race-ka (the first connection's KEEPALIVE at the same instant as the second's OPEN), race-close, race-bad (victim closes / sends a bad header at that instant)} x which connection gets its OPEN first x whether the inbound connection arrives before the dial completes "
-          "x 24 (quick) / 1200 (thorough) seeds of virtual delays at the FSM, peer-manager and collision-select schedule points. Oracle: ordered/simul/estfirst demand the RFC 4271 6.8 survivor exactly; race modes demand at most one survivor; always: a single Cease then close on the loser, "
+          "x 16 (quick) / 800 (thorough) seeds of virtual delays at the FSM, peer-manager and collision-select schedule points. Oracle: ordered/simul/estfirst demand the RFC 4271 6.8 survivor exactly; race modes demand at most one survivor; always: a single Cease then close on the loser, "
           "survivor saw exactly OPEN KEEPALIVE, establishes on KEEPALIVE, delivers a subsequent UPDATE, and a further inbound connection is refused silently. evidence.events lists the observed outcome per mode. distinct = distinct (configuration, mode, order, outcome, transition/callback trace).",
   "exhaustive_note": "the configuration x mode x order grid is enumerated completely on every run; schedules within a cell are sampled",
   "assumptions": ENGINE_V,
@@ -218,8 +218,8 @@ SPECS = {
 
  "C01": {
   "level": "exploration",
-  "passes": [fsm("^TestC01$"), real("^TestRealSessions$")],
-  "rule": "[also pass realtcp: real loopback sessions in both directions with 1-byte writes, 4 concurrent writers, Close] one case = one seeded adversarial world: 1-3 peers (passive/active, hold 0/3/9/90, idle-hold 1ms..5s, local or remote dominant), outbound dials refused/stalled/accepted (with latency), inbound connections arriving concurrently (some with 1-5 byte reads or injected read/write errors), "
+  "passes": [fsm("^TestC01$"), real("^TestReal(Sessions|Readd)$")],
+  "rule": "[also pass realtcp: real loopback sessions in both directions with 1-byte writes, 4 concurrent writers, Close; and DeletePeer still tearing down a session (busy handler) while AddPeer re-adds the address and the remote reconnects: never two sessions at once] one case = one seeded adversarial world: 1-3 peers (passive/active, hold 0/3/9/90, idle-hold 1ms..5s, local or remote dominant), outbound dials refused/stalled/accepted (with latency), inbound connections arriving concurrently (some with 1-5 byte reads or injected read/write errors), "
           "every connection driven by a random remote script over {valid OPEN, invalid OPEN, KEEPALIVE, UPDATE(conn,idx), Cease, other NOTIFICATION, garbage, half message, close, RST, pauses from 0 to 10 virtual seconds}, 60% of them completing a handshake first; meanwhile AddPeer/DeletePeer and finally Close. "
           "Even cases: seeded virtual delays at all schedule points, registry calls by the director only; odd cases: runtime.Gosched bursts at schedule points, one concurrent API actor per peer plus ungated arrivals. "
           "Oracle: online plugin automaton per peer (alternation, no overlap, handler only between OnEstablished return and OnClose, exactly one OnClose by Close/DeletePeer return, nothing afterwards) + offline join: every OPEN on the wire carries a nonce issued by exactly one earlier GetCapabilities call of that peer, "
